@@ -98,6 +98,7 @@ type OptNode struct {
 	Kind      string   `json:"kind"`            // flag counter ptrflag scalar slice map ptr func0 func1
 	VType     string   `json:"vtype"`           // string int int8 ... uint64 float32 float64 duration um bool
 	KType     string   `json:"ktype,omitempty"` // maps: key type ("" = string)
+	Param     string   `json:"param,omitempty"` // func1: "" the parameter is a scalar; "slice" []T; "map" map[string]T; "ptr" *T
 	Base      int      `json:"base,omitempty"`
 	Optional  bool     `json:"optional,omitempty"`
 	OptVals   []string `json:"optvals,omitempty"`
@@ -179,6 +180,7 @@ type FOpt struct {
 	Kind      string `json:"kind"`
 	VType     string `json:"vtype"`
 	KType     string `json:"ktype"`
+	Param     string `json:"param"`
 	Base      int    `json:"base"`
 	Optional  bool   `json:"optional"`
 	OptVals   []S    `json:"optvals"`
@@ -386,7 +388,7 @@ func Flatten(t *Tree) *Decl {
 		var walkGroup func(g *GroupNode, gi int)
 		walkGroup = func(g *GroupNode, gi int) {
 			for _, o := range g.Opts {
-				fo := FOpt{Cmd: ci, Group: gi, Short: shortCP(o.Short), Long: toS(o.Long), Kind: o.Kind, VType: o.VType, KType: ktypeOf(o),
+				fo := FOpt{Cmd: ci, Group: gi, Short: shortCP(o.Short), Long: toS(o.Long), Kind: o.Kind, VType: o.VType, KType: ktypeOf(o), Param: o.Param,
 					Base: base10(o.Base), Optional: o.Optional, OptVals: toSs(o.OptVals), Required: o.Required,
 					Defaults: toSs(o.Defaults), Env: toS(o.Env), EnvDelim: toS(o.EnvDelim), Choices: toSs(o.Choices),
 					Hidden: o.Hidden, Unquote: !o.NoUnquote, IniName: toS(o.IniName), NoIni: o.NoIni,
